@@ -92,6 +92,17 @@ class List(Expression):
             out += RESULT << staging
             out += STATUS << True
 
+        if self.max_len is not None:
+            # The loop may also have stopped at the upper bound, with the
+            # status of the last element still set. (This can only matter when
+            # a symbolic lower bound turns out to exceed the upper bound.)
+            with out.ELIF(STATUS):
+                out += RESULT << self.error_func()
+                out += STATUS << False
+
+    def complain(self):
+        return f'Expected at least {self.min_len} repetitions of: {self.expr}'
+
 
 def _check_min_and_max_len(min_len, max_len):
     if min_len is None or max_len is None:
